@@ -6,7 +6,7 @@ import ast
 from ..core import guards
 from ..core import pyfacts as pf
 from ..core.effects import effects
-from ..core.match import phi_alts, txt
+from ..core.match import canon, phi_alts, txt
 from ..core.source import AnchorMissing
 from .common import DECAY, ckey, enclosing, fn, returns, stmt_of, where
 
@@ -92,9 +92,9 @@ def c12_2(ctx, ss):
     kname = lp.iter.id
     defs = [d for d in flow.defs if d.name == kname and d.kind == "assign"]
     texts = sorted(txt(d.value) for d in defs)
-    want = sorted(["[k for k in self.decays if k not in stable_particles]", "list(self.decays.keys())"])
-    alt_ok = all(t in ("[k for k in self.decays if k not in stable_particles]", "list(self.decays.keys())", "list(self.decays)",
-                       "[k for k in self.decays.keys() if k not in stable_particles]") for t in texts) and texts
+    want = sorted([canon("[k for k in self.decays if k not in stable_particles]"), "list(self.decays.keys())"])
+    alt_ok = all(t in (canon("[k for k in self.decays if k not in stable_particles]"), "list(self.decays.keys())", "list(self.decays)",
+                       canon("[k for k in self.decays.keys() if k not in stable_particles]")) for t in texts) and texts
     if alt_ok:
         ctx.holds("C12.2", k + " :: all-keys", where(ff, lp), "keys = every decaying particle not declared stable; the loop ranges over all of them", len(defs) + 1)
     else:
